@@ -22,7 +22,8 @@ Definition cinv (cl : bool) (ps : list Z) (c : cons) : Prop :=
       | OGot x => ckind c = Single /\ crecv c = [x] /\ nth_error ps (csub c) = Some x
       | OClosed => ckind c = Single /\ cl = true /\ crecv c = [] /\ pend ps c = []
       | OEnded => ckind c = Iter /\ cl = true /\ crecv c = pend ps c
-      | OFault | OLeft => exists rest, crecv c ++ rest = pend ps c
+      | OFault => exists rest, crecv c ++ rest = pend ps c
+      | OLeft => ckind c = Iter /\ exists rest, crecv c ++ rest = pend ps c
       | ONone | OError => False
       end
   end.
@@ -102,7 +103,7 @@ Lemma cid_local : forall o cl c c' r, local o cl c = Some (c', r) -> cid c' = ci
 Proof.
   intros. unfold local, iter_loop, single_resume in H.
   destruct o, (cph c), (ckind c); try discriminate;
-    repeat (destruct (cbuf c)); try destruct cl; inversion H; reflexivity.
+    try (destruct (cbuf c)); try destruct cl; inversion H; reflexivity.
 Qed.
 
 Definition lf (o : op) (cl : bool) (c : cons) : cons :=
@@ -114,3 +115,387 @@ Proof.
   eapply cid_local; eauto.
 Qed.
 
+
+(* ---------- every section preserves the per-consumer invariant *)
+Lemma cinv_put : forall ps x c, cinv false ps c -> cinv false (ps ++ [x]) (c_put x c).
+Proof.
+  intros ps x c (Hle & Hs & H).
+  assert (L : csub c <= length (ps ++ [x])) by (rewrite app_length; simpl; lia).
+  unfold cinv, c_put, registered, pend, single_recv in *.
+  destruct (cph c) eqn:P; simpl in *; rewrite ?P; simpl;
+    (split; [exact L|]); (split; [exact Hs|]).
+  - destruct H as (Ho & _ & Hb & Hr). rewrite Hb; simpl. split; auto.
+    split; [left; discriminate|]. rewrite skipn_snoc by lia. rewrite Hr. reflexivity.
+  - destruct H as (Ho & _ & Hr). split; auto.
+    split; [left; destruct (cbuf c); discriminate|].
+    rewrite skipn_snoc by lia. rewrite <- Hr, app_assoc. reflexivity.
+  - destruct H as (Ho & Hk & Hr). repeat split; auto.
+    rewrite skipn_snoc by lia. rewrite <- Hr, app_assoc. reflexivity.
+  - destruct H as (Ho & Hk & Hr). repeat split; auto.
+    rewrite skipn_snoc by lia. rewrite <- Hr, app_assoc. reflexivity.
+  - destruct (cout c); auto.
+    + destruct H as (Hk & Hr & Hn). repeat split; auto.
+      rewrite nth_error_app1; auto. apply nth_error_Some. congruence.
+    + destruct H as (_ & F & _). discriminate.
+    + destruct H as (_ & F & _). discriminate.
+    + destruct H as (rest & Hr). exists (rest ++ [x]).
+      rewrite skipn_snoc by lia. rewrite <- Hr, app_assoc. reflexivity.
+    + destruct H as (Hk & rest & Hr). split; auto. exists (rest ++ [x]).
+      rewrite skipn_snoc by lia. rewrite <- Hr, app_assoc. reflexivity.
+Qed.
+
+Lemma cinv_close : forall ps c, cinv false ps c -> cinv true ps (wake c).
+Proof.
+  intros ps c (Hle & Hs & H).
+  unfold cinv, wake, registered, single_recv in *.
+  destruct (cph c) eqn:P; simpl; rewrite ?P; simpl; (split; [auto|]); (split; [auto|]).
+  - destruct H as (Ho & _ & Hb & Hr). repeat split; auto. rewrite Hb, app_nil_r. auto.
+  - destruct H as (Ho & _ & Hr); auto.
+  - auto.
+  - auto.
+  - destruct (cout c); auto.
+    + destruct H as (_ & F & _). discriminate.
+    + destruct H as (_ & F & _). discriminate.
+Qed.
+
+Lemma cinv_local : forall o cl ps c c' r,
+  cinv cl ps c -> local o cl c = Some (c', r) -> cinv cl ps c'.
+Proof.
+  intros o cl ps c c' r (Hle & Hs & H) L.
+  unfold local in L.
+  destruct o; try discriminate;
+  destruct (cph c) eqn:P; try discriminate;
+  destruct (ckind c) eqn:K; try discriminate;
+  unfold single_resume, iter_loop, finish, set_ph in L;
+  try (destruct (cbuf c) as [|x b] eqn:B);
+  try (destruct cl eqn:C);
+  inversion L; subst c' r; clear L;
+  unfold cinv, pend, single_recv in *; simpl; rewrite ?P, ?K in *; simpl in *;
+  (split; [auto|]); (split; [try (intros; discriminate); auto|]).
+  all: try (destruct H as (Ho & H); rewrite Ho in Hs).
+  all: try (assert (Hr0 : crecv c = []) by (apply Hs; reflexivity); rewrite Hr0 in *; simpl in * ).
+  all: repeat match goal with
+       | H : _ /\ _ |- _ => destruct H
+       | H : _ \/ _ |- _ => destruct H
+       end; try congruence; try discriminate.
+  all: rewrite ?app_nil_r in *.
+  all: try (repeat split; auto; fail).
+  all: try (repeat split; auto; rewrite <- app_assoc; auto; fail).
+  all: try (repeat split; auto; eapply skipn_cons_nth; eauto; fail).
+  all: try (eexists; eauto; fail).
+  all: try (exists []; rewrite app_nil_r; auto; fail).
+  all: try (split; auto; eexists; eauto; fail).
+  all: try (split; auto; exists []; rewrite app_nil_r; auto; fail).
+Qed.
+
+Lemma cinv_lf : forall o cl ps c, cinv cl ps c -> cinv cl ps (lf o cl c).
+Proof.
+  intros. unfold lf. destruct (local o cl c) as [[c' r]|] eqn:E; auto.
+  eapply cinv_local; eauto.
+Qed.
+
+Lemma Inv_init : Inv init.
+Proof. split; simpl; constructor. Qed.
+
+Definition is_local (o : op) (i : nat) : Prop :=
+  o = Resume i \/ o = Next i \/ o = Fault i \/ o = Leave i \/ o = Finalise i.
+
+Lemma step_local_shape : forall s o i, is_local o i ->
+  step s o =
+  match find i (conss s) with
+  | None => (s, RDisabled)
+  | Some c =>
+      match local o (closed s) c with
+      | None => (s, RDisabled)
+      | Some (_, r) => (mkS (closed s) (puts s) (upd i (lf o (closed s)) (conss s)), r)
+      end
+  end.
+Proof. intros s o i [H | [H | [H | [H | H]]]]; subst o; reflexivity. Qed.
+
+Lemma Inv_upd : forall s o i,
+  Inv s -> Inv (mkS (closed s) (puts s) (upd i (lf o (closed s)) (conss s))).
+Proof.
+  intros s o i [Hn Hf]. split; simpl.
+  - unfold upd. rewrite map_cid_map; auto.
+    intros c. destruct (cid c =? i); auto. apply cid_lf.
+  - unfold upd. apply Forall_map. eapply Forall_impl; [|exact Hf].
+    intros c Hc. simpl. destruct (cid c =? i); auto. apply cinv_lf; auto.
+Qed.
+
+Lemma NoDup_snoc : forall (l : list nat) i, NoDup l -> ~ In i l -> NoDup (l ++ [i]).
+Proof.
+  induction l; simpl; intros.
+  - constructor; auto.
+  - inversion H; subst. constructor.
+    + intro F. apply in_app_or in F. destruct F as [F | [F | []]]; auto.
+    + apply IHl; auto.
+Qed.
+
+Lemma Inv_step : forall s o, Inv s -> Inv (fst (step s o)).
+Proof.
+  intros s o HI.
+  assert (HL : forall i, is_local o i -> Inv (fst (step s o))).
+  { intros i Ho. rewrite (step_local_shape s o i Ho).
+    destruct (find i (conss s)) as [c|]; auto.
+    destruct (local o (closed s) c) as [[c' r]|]; auto. simpl. apply Inv_upd; auto. }
+  destruct o; try (apply (HL i); unfold is_local; tauto).
+  - (* Put *)
+    simpl. destruct (closed s) eqn:C; auto. destruct HI as [Hn Hf]. split; simpl.
+    + rewrite map_cid_map; auto. apply cid_c_put.
+    + apply Forall_map. eapply Forall_impl; [|exact Hf]. rewrite C.
+      intros c Hc. apply cinv_put; auto.
+  - (* Close *)
+    simpl. destruct (closed s) eqn:C; auto. destruct HI as [Hn Hf]. split; simpl.
+    + rewrite map_cid_map; auto. apply cid_wake.
+    + apply Forall_map. eapply Forall_impl; [|exact Hf]. rewrite C.
+      intros c Hc. apply cinv_close; auto.
+  - (* Sub *)
+    simpl. destruct (find i (conss s)) eqn:F; auto.
+    apply find_none_notin in F. destruct HI as [Hn Hf].
+    assert (SK : skipn (length (puts s)) (puts s) = []) by apply skipn_all.
+    destruct (closed s) eqn:C; [destruct k|]; split; simpl;
+      try (rewrite map_app; simpl; apply NoDup_snoc; auto);
+      apply Forall_app; (split; [auto|]);
+      constructor; auto; unfold cinv, pend, single_recv; simpl; rewrite ?SK;
+      repeat split; auto; intros; discriminate.
+Qed.
+
+Lemma Inv_run : forall tr s, Inv s -> Inv (run s tr).
+Proof. induction tr; simpl; intros; auto. apply IHtr. apply Inv_step; auto. Qed.
+
+Lemma Inv_reachable : forall s, reachable s -> Inv s.
+Proof. intros s [tr ->]. apply Inv_run. apply Inv_init. Qed.
+
+Lemma reach_cinv : forall s c, reachable s -> In c (conss s) -> cinv (closed s) (puts s) c.
+Proof.
+  intros s c R I. apply Inv_reachable in R. destruct R as [_ F].
+  rewrite Forall_forall in F. auto.
+Qed.
+
+Lemma reachable_step : forall s o, reachable s -> reachable (fst (step s o)).
+Proof.
+  intros s o [tr ->]. exists (tr ++ [o]).
+  assert (G : forall tr s, run s (tr ++ [o]) = fst (step (run s tr) o)).
+  { clear. induction tr; simpl; intros; auto. }
+  rewrite G. reflexivity.
+Qed.
+
+Arguments find : simpl never.
+Arguments upd : simpl never.
+
+(* ================= C11 theorems ================= *)
+
+(* broadcast: what a subscribed consumer has received, followed by what waits in its private
+   buffer, is exactly the sequence of messages put since it subscribed: nothing lost,
+   duplicated or reordered -- whatever the other consumers and the faults did *)
+Theorem broadcast_exact_thm : forall s c,
+  reachable s -> In c (conss s) -> registered c = true ->
+  crecv c ++ cbuf c = skipn (csub c) (puts s).
+Proof.
+  intros s c R I G. pose proof (reach_cinv s c R I) as (_ & _ & H).
+  unfold registered in G. destruct (cph c); try discriminate; unfold pend in H.
+  - destruct H as (_ & _ & B & Hr). rewrite B, app_nil_r. auto.
+  - tauto.
+  - tauto.
+  - tauto.
+Qed.
+
+(* a consumer that is gone received a prefix of them and nothing else *)
+Theorem received_prefix_thm : forall s c,
+  reachable s -> In c (conss s) ->
+  exists rest, crecv c ++ rest = skipn (csub c) (puts s).
+Proof.
+  intros s c R I. destruct (registered c) eqn:G.
+  - exists (cbuf c). apply broadcast_exact_thm; auto.
+  - pose proof (reach_cinv s c R I) as (_ & _ & H).
+    unfold registered in G. destruct (cph c); try discriminate. unfold pend in H.
+    destruct (cout c); try contradiction.
+    + destruct H as (_ & Hr & Hn). rewrite Hr.
+      assert (csub c < length (puts s)) by (apply nth_error_Some; congruence).
+      destruct (skipn (csub c) (puts s)) as [|y r] eqn:E.
+      * apply (f_equal (@length Z)) in E. rewrite skipn_length in E. simpl in E. lia.
+      * apply skipn_cons_nth in E. exists r. simpl. congruence.
+    + destruct H as (_ & _ & Hr & Hp). exists []. rewrite Hr, Hp. reflexivity.
+    + destruct H as (_ & _ & Hr). exists []. rewrite app_nil_r. auto.
+    + auto.
+    + tauto.
+Qed.
+
+(* no lost wake-up: a consumer sleeping un-woken has nothing to receive and the stream is open *)
+Theorem sleeping_has_nothing_thm : forall s c,
+  reachable s -> In c (conss s) -> cph c = Waiting ->
+  cbuf c = [] /\ closed s = false /\ crecv c = skipn (csub c) (puts s).
+Proof.
+  intros s c R I P. pose proof (reach_cinv s c R I) as (_ & _ & H).
+  rewrite P in H. tauto.
+Qed.
+
+(* a consumer that was woken has something to receive or the stream is closed: the
+   `buffer[0]` of Channel.__await__ cannot raise IndexError *)
+Theorem woken_has_reason_thm : forall s c,
+  reachable s -> In c (conss s) -> cph c = Woken -> cbuf c <> [] \/ closed s = true.
+Proof.
+  intros s c R I P. pose proof (reach_cinv s c R I) as (_ & _ & H).
+  rewrite P in H. tauto.
+Qed.
+
+(* `await channel`: returns the first message put after it started waiting; raises
+   StreamClosed only if the channel is closed and nothing was put meanwhile; a consumer
+   removed by a fault received nothing; no other ending exists *)
+Theorem single_get_first_thm : forall s c,
+  reachable s -> In c (conss s) -> ckind c = Single -> cph c = Done ->
+  match cout c with
+  | OGot x => crecv c = [x] /\ nth_error (puts s) (csub c) = Some x
+  | OClosed => crecv c = [] /\ closed s = true /\ skipn (csub c) (puts s) = []
+  | OFault => crecv c = []
+  | _ => False
+  end.
+Proof.
+  intros s c R I K P. pose proof (reach_cinv s c R I) as (_ & Hs & H).
+  rewrite P in H. unfold pend, single_recv in *. specialize (Hs K).
+  destruct (cout c); try tauto; try (destruct H; congruence).
+Qed.
+
+(* after close: pending messages are still delivered, then iteration ends -- an iterating
+   consumer whose loop ended normally has received EVERY message put since it subscribed,
+   and the stream is closed *)
+Theorem close_then_end_thm : forall s c,
+  reachable s -> In c (conss s) -> cout c = OEnded ->
+  ckind c = Iter /\ closed s = true /\ crecv c = skipn (csub c) (puts s).
+Proof.
+  intros s c R I O. pose proof (reach_cinv s c R I) as (_ & _ & H).
+  rewrite O in H. unfold pend in H.
+  destruct (cph c); try (destruct H; discriminate). auto.
+Qed.
+
+Lemma step_closed_puts : forall s o, closed s = true ->
+  closed (fst (step s o)) = true /\ puts (fst (step s o)) = puts s.
+Proof.
+  intros s o C.
+  assert (HL : forall i, is_local o i ->
+    closed (fst (step s o)) = true /\ puts (fst (step s o)) = puts s).
+  { intros i Ho. rewrite (step_local_shape s o i Ho).
+    destruct (find i (conss s)) as [c|]; auto.
+    destruct (local o (closed s) c) as [[c' r]|]; auto. }
+  destruct o; try (apply (HL i); unfold is_local; tauto); simpl; rewrite ?C; auto.
+  destruct (find i (conss s)); auto. destruct k; auto.
+Qed.
+
+(* ... a put on a closed channel raises and changes nothing; close is idempotent;
+   a new `await channel` raises; no further message is ever accepted *)
+Theorem closed_rejects_thm : forall s, closed s = true ->
+  (forall x, step s (Put x) = (s, RRaised)) /\
+  step s Close = (s, RNone) /\
+  (forall i, find i (conss s) = None -> snd (step s (Sub i Single)) = RRaised) /\
+  (forall i, find i (conss s) = None -> snd (step s (Sub i Iter)) = REnded) /\
+  (forall o, closed (fst (step s o)) = true /\ puts (fst (step s o)) = puts s).
+Proof.
+  intros s C. split; [|split; [|split; [|split]]]; intros; simpl; rewrite ?C; auto;
+    try (rewrite H; reflexivity).
+  apply step_closed_puts; auto.
+Qed.
+
+(* ... and what a still-subscribed iterating consumer gets on a closed channel: the head of
+   its buffer while there is one, then the end *)
+Theorem closed_drains_thm : forall s c o i, closed s = true ->
+  find i (conss s) = Some c -> ckind c = Iter ->
+  (o = Resume i /\ cph c = Woken \/ o = Next i /\ cph c = Body) ->
+  snd (step s o) = match cbuf c with x :: _ => RYield x | [] => REnded end.
+Proof.
+  intros s c o i C F K [[-> P] | [-> P]]; simpl; rewrite F; unfold local; rewrite P, K;
+    unfold iter_loop; rewrite C; destruct (cbuf c); reflexivity.
+Qed.
+
+(* isolation: a section performed by (or a fault hitting) consumer i -- subscribing,
+   resuming, leaving by any route, being finalised -- changes nothing of any other
+   consumer: not its buffer, not its received sequence, not its phase; nor the channel *)
+Theorem isolation_thm : forall s o i j,
+  actor o = Some i -> j <> i ->
+  find j (conss (fst (step s o))) = find j (conss s) /\
+  closed (fst (step s o)) = closed s /\ puts (fst (step s o)) = puts s.
+Proof.
+  intros s o i j A N.
+  assert (HL : is_local o i ->
+    find j (conss (fst (step s o))) = find j (conss s) /\
+    closed (fst (step s o)) = closed s /\ puts (fst (step s o)) = puts s).
+  { intros Ho. rewrite (step_local_shape s o i Ho).
+    destruct (find i (conss s)) as [c|]; auto.
+    destruct (local o (closed s) c) as [[c' r]|]; auto. simpl.
+    rewrite find_upd by (intros; apply cid_lf).
+    apply Nat.eqb_neq in N. rewrite N. auto. }
+  destruct o; simpl in A; inversion A; subst;
+    try (apply HL; unfold is_local; tauto).
+  simpl. destruct (find i (conss s)) eqn:F; auto.
+  destruct (closed s) eqn:C; [destruct k|]; simpl; rewrite find_snoc; simpl;
+    (destruct (find j (conss s)); [auto|]);
+    (destruct (i =? j) eqn:E; [apply Nat.eqb_eq in E; congruence | auto]).
+Qed.
+
+(* independence: the whole history of consumer j (its record at every moment: buffer,
+   received sequence, phase, outcome) is a function of the puts, the closes and its own
+   sections only -- erase every section of every other consumer from the run and j sees
+   exactly the same.  "independent of how many other consumers exist or how fast they are" *)
+Definition relevant (j : nat) (o : op) : bool :=
+  match actor o with None => true | Some i => i =? j end.
+
+Definition view (j : nat) (s : state) := (closed s, puts s, find j (conss s)).
+
+Lemma step_relevant : forall j o s1 s2, relevant j o = true -> view j s1 = view j s2 ->
+  view j (fst (step s1 o)) = view j (fst (step s2 o)) /\ snd (step s1 o) = snd (step s2 o).
+Proof.
+  unfold view. intros j o s1 s2 Rl V. inversion V as [[Vc Vp Vf]]. clear V.
+  assert (HL : is_local o j ->
+    (closed (fst (step s1 o)), puts (fst (step s1 o)), find j (conss (fst (step s1 o)))) =
+    (closed (fst (step s2 o)), puts (fst (step s2 o)), find j (conss (fst (step s2 o)))) /\
+    snd (step s1 o) = snd (step s2 o)).
+  { intros Ho. rewrite (step_local_shape s1 o j Ho), (step_local_shape s2 o j Ho).
+    rewrite Vf, Vc. destruct (find j (conss s2)) as [c|] eqn:F; simpl; [|rewrite Vc, Vp, Vf, F; auto].
+    destruct (local o (closed s2) c) as [[c' r]|]; simpl; [|rewrite Vc, Vp, Vf, F; auto].
+    rewrite !find_upd by (intros; apply cid_lf). rewrite Nat.eqb_refl, Vf, F, Vp. auto. }
+  destruct o; unfold relevant in Rl; simpl in Rl;
+    try (apply Nat.eqb_eq in Rl; subst i; apply HL; unfold is_local; tauto).
+  - simpl. rewrite Vc. destruct (closed s2) eqn:C2; simpl; [rewrite Vc, C2, Vp, Vf; auto|].
+    rewrite !find_map by apply cid_c_put. rewrite Vp, Vf. auto.
+  - simpl. rewrite Vc. destruct (closed s2) eqn:C2; simpl; [rewrite Vc, C2, Vp, Vf; auto|].
+    rewrite !find_map by apply cid_wake. rewrite Vp, Vf. auto.
+  - apply Nat.eqb_eq in Rl. subst i. simpl. rewrite Vf, Vc, Vp.
+    destruct (find j (conss s2)) eqn:F; simpl; [rewrite Vc, Vp, Vf, F; auto|].
+    destruct (closed s2); [destruct k|]; simpl; rewrite !find_snoc, Vf, F; simpl;
+      rewrite Nat.eqb_refl; auto.
+Qed.
+
+Theorem independence_thm : forall j tr s1 s2, view j s1 = view j s2 ->
+  view j (run s1 tr) = view j (run s2 (filter (relevant j) tr)).
+Proof.
+  induction tr; simpl; intros; auto.
+  destruct (relevant j a) eqn:Rl; simpl.
+  - apply IHtr. apply step_relevant; auto.
+  - apply IHtr. rewrite <- H. unfold relevant in Rl.
+    destruct (actor a) as [i|] eqn:A; try discriminate. apply Nat.eqb_neq in Rl.
+    destruct (isolation_thm s1 a i j A) as (E1 & E2 & E3); auto.
+    unfold view. rewrite E1, E2, E3. reflexivity.
+Qed.
+
+(* the results consumer j sees from its own sections are the same in the erased run *)
+Fixpoint outs_of (j : nat) (s : state) (tr : list op) : list out :=
+  match tr with
+  | [] => []
+  | o :: tr' =>
+      (if match actor o with Some i => i =? j | None => false end then [snd (step s o)] else [])
+      ++ outs_of j (fst (step s o)) tr'
+  end.
+
+Theorem independence_outs_thm : forall j tr s1 s2, view j s1 = view j s2 ->
+  outs_of j s1 tr = outs_of j s2 (filter (relevant j) tr).
+Proof.
+  induction tr; simpl; intros; auto.
+  unfold relevant at 1. destruct (actor a) as [i|] eqn:A; simpl.
+  - destruct (i =? j) eqn:E; simpl.
+    + rewrite A, E. assert (Rl : relevant j a = true) by (unfold relevant; rewrite A; auto).
+      destruct (step_relevant j a s1 s2 Rl H) as (V & O). rewrite O. simpl. f_equal. apply IHtr; auto.
+    + apply IHtr. rewrite <- H. apply Nat.eqb_neq in E.
+      destruct (isolation_thm s1 a i j A) as (E1 & E2 & E3); auto.
+      unfold view. rewrite E1, E2, E3. reflexivity.
+  - rewrite A. simpl. assert (Rl : relevant j a = true) by (unfold relevant; rewrite A; auto).
+    destruct (step_relevant j a s1 s2 Rl H) as (V & O). apply IHtr; auto.
+Qed.
